@@ -44,6 +44,11 @@ func (m lww) apply(rows []engx.Row) {
 
 // read renders the expected answer in the harness' canonical row format.
 func (m lww) read(fields []string, lo, hi int, asc bool) string {
+	return m.readK(fields, lo, hi, asc, 0)
+}
+
+// readK: at most k rows per series (k <= 0: all), the first ones in the direction of the read.
+func (m lww) readK(fields []string, lo, hi int, asc bool, kmax int) string {
 	var ks []key
 	for k, fm := range m {
 		if k.t < lo || k.t > hi {
@@ -69,7 +74,12 @@ func (m lww) read(fields []string, lo, hi int, asc bool) string {
 		return ks[a].t > ks[b].t
 	})
 	var cells []string
+	perSeries := map[int]int{}
 	for _, k := range ks {
+		perSeries[k.s]++
+		if kmax > 0 && perSeries[k.s] > kmax {
+			continue
+		}
 		var vs []string
 		for _, f := range fields {
 			if v, ok := m[k][f]; ok {
@@ -182,11 +192,12 @@ type history struct {
 func (h *history) readCheck(r *hx.Rng, tag string) error {
 	// full read both directions, then one random range / field subset
 	type q struct {
-		fields []string
-		lo, hi int
-		asc    bool
+		fields        []string
+		lo, hi        int
+		asc           bool
+		limit, offset int
 	}
-	qs := []q{{engx.FieldNames, 0, nTimes - 1, true}, {engx.FieldNames, 0, nTimes - 1, false}}
+	qs := []q{{engx.FieldNames, 0, nTimes - 1, true, 0, 0}, {engx.FieldNames, 0, nTimes - 1, false, 0, 0}}
 	var fs []string
 	for _, f := range engx.FieldNames {
 		if r.Bool() {
@@ -198,7 +209,19 @@ func (h *history) readCheck(r *hx.Rng, tag string) error {
 	}
 	lo := r.Intn(nTimes)
 	hi := lo + r.Intn(nTimes-lo)
-	qs = append(qs, q{fs, lo, hi, r.Bool()})
+	qs = append(qs, q{fs, lo, hi, r.Bool(), 0, 0})
+	// LIMIT / OFFSET pushed into the series cursors (engine/limit_cursor.go): every series stops after
+	// limit+offset rows, the first ones in the direction of the read
+	lfs := fs
+	if r.Bool() {
+		lfs = engx.FieldNames
+	}
+	llo := r.Intn(nTimes)
+	lhi := llo + r.Intn(nTimes-llo)
+	if r.Chance(40) {
+		llo, lhi = 0, nTimes-1
+	}
+	qs = append(qs, q{lfs, llo, lhi, r.Bool(), 1 + r.Intn(3), r.Intn(2)})
 	h.sh.FlushIndex()
 	for _, x := range qs {
 		var vf []engine.VerifField
@@ -207,7 +230,13 @@ func (h *history) readCheck(r *hx.Rng, tag string) error {
 		}
 		var rows []engine.VerifRow
 		var err error
-		perr := hx.Safe(func() { rows, err = h.sh.Dump("m", vf, engx.TimeOf(x.lo), engx.TimeOf(x.hi), x.asc) })
+		perr := hx.Safe(func() {
+			if x.limit+x.offset > 0 {
+				rows, err = h.sh.DumpLimit("m", vf, engx.TimeOf(x.lo), engx.TimeOf(x.hi), x.asc, x.limit, x.offset)
+			} else {
+				rows, err = h.sh.Dump("m", vf, engx.TimeOf(x.lo), engx.TimeOf(x.hi), x.asc)
+			}
+		})
 		ans := ""
 		switch {
 		case perr != "":
@@ -222,15 +251,19 @@ func (h *history) readCheck(r *hx.Rng, tag string) error {
 			dir = "desc"
 		}
 		op := fmt.Sprintf("read %s %d %d %s", dir, x.lo, x.hi, strings.Join(x.fields, ","))
+		if x.limit+x.offset > 0 {
+			op = fmt.Sprintf("readlim %s %d %d %s %d", dir, x.lo, x.hi, strings.Join(x.fields, ","), x.limit+x.offset)
+			h.c.Count("read:with-limit")
+		}
 		line := h.c.Emit(op, ans)
-		want := h.spec.read(x.fields, x.lo, x.hi, x.asc)
+		want := h.spec.readK(x.fields, x.lo, x.hi, x.asc, x.limit+x.offset)
 		if ans != want {
 			class := ""
 			pred := h.base.clone()
 			for _, w := range h.wal {
 				pred.apply(w.rows)
 			}
-			if ans == pred.read(x.fields, x.lo, x.hi, x.asc) {
+			if ans == pred.readK(x.fields, x.lo, x.hi, x.asc, x.limit+x.offset) {
 				class = "wal_replay_order_mod_n"
 			}
 			h.c.Violation(line, class, fmt.Sprintf("after %s: shard answered %q, last-write-wins replay says %q", tag, ans, want))
@@ -239,10 +272,26 @@ func (h *history) readCheck(r *hx.Rng, tag string) error {
 	return nil
 }
 
+// trace prints the history as it runs (C02_TRACE=1): a panic in one of the shard's own goroutines
+// (compaction, merge) ends the process before ops.txt is written out.
+func trace(format string, a ...any) {
+	if os.Getenv("C02_TRACE") != "" {
+		fmt.Fprintf(os.Stderr, "TRACE "+format+"\n", a...)
+	}
+}
+
 func runHistory(c *hx.Ctx, r *hx.Rng, idx int, maxOps int) error {
 	dir := engx.ScratchDir("c02")
 	defer os.RemoveAll(dir)
 	walParts := []int{1, 2, 4}[r.Intn(3)]
+	// rows per segment of the data files written by this history: the default (1000: one segment per
+	// chunk) or 2 / 3 (a chunk of a series is cut into up to four segments, so time ranges and
+	// field subsets of the reads cut through segments as well as through chunks and files)
+	seg := []int{0, 0, 2, 3}[r.Intn(4)]
+	engine.VerifSetMaxRowsPerSegment(seg)
+	defer engine.VerifSetMaxRowsPerSegment(0)
+	c.Count(fmt.Sprintf("rows-per-segment=%d", seg))
+	trace("history %d parts=%d rows-per-segment=%d", idx, walParts, seg)
 	sh, err := engine.VerifOpenShard(dir, walParts)
 	if err != nil {
 		return err
@@ -273,6 +322,7 @@ func runHistory(c *hx.Ctx, r *hx.Rng, idx int, maxOps int) error {
 				h.inMem[k] = true
 			}
 			var werr error
+			trace("write %s", strings.Join(ts, ";"))
 			perr := hx.Safe(func() { werr = h.sh.Write(engx.ToInflux(rows)) })
 			ans := "ack"
 			if perr != "" {
@@ -291,6 +341,7 @@ func runHistory(c *hx.Ctx, r *hx.Rng, idx int, maxOps int) error {
 			kinds += "w"
 			c.Count("op:write")
 		case p < 72:
+			trace("flush")
 			perr := hx.Safe(func() { h.sh.Flush() })
 			for _, w := range h.wal {
 				h.base.apply(w.rows)
@@ -305,6 +356,7 @@ func runHistory(c *hx.Ctx, r *hx.Rng, idx int, maxOps int) error {
 			c.Count("op:flush")
 		case p < 80:
 			lv := uint16(r.Intn(2))
+			trace("compact %d", lv)
 			var e error
 			perr := hx.Safe(func() { e = h.sh.LevelCompact(lv) })
 			c.Emit(fmt.Sprintf("compact %d", lv), ansOf(perr, e))
@@ -312,6 +364,7 @@ func runHistory(c *hx.Ctx, r *hx.Rng, idx int, maxOps int) error {
 			kinds += "c"
 			c.Count("op:level-compact")
 		case p < 85:
+			trace("fullcompact")
 			var e error
 			perr := hx.Safe(func() { e = h.sh.FullCompact() })
 			c.Emit("fullcompact", ansOf(perr, e))
@@ -320,12 +373,14 @@ func runHistory(c *hx.Ctx, r *hx.Rng, idx int, maxOps int) error {
 		case p < 93:
 			var e error
 			full, force := r.Bool(), r.Chance(60)
+			trace("merge full=%v force=%v", full, force)
 			perr := hx.Safe(func() { e = h.sh.MergeOutOfOrder(full, force) })
 			c.Emit("merge", ansOf(perr, e))
 			kinds += "m"
 			c.Count("op:merge-ooo")
 		default:
 			// clean restart
+			trace("reopen")
 			var e error
 			perr := hx.Safe(func() {
 				e = h.sh.Close()
@@ -388,6 +443,9 @@ func Run(c *hx.Ctx) error {
 	n := c.Budget(60, 1500)
 	r := hx.NewRng(c.Seed)
 	runRecAlg(c, r.Fork(), n*40)
+	if err := runMemRead(c, r.Fork(), n*6); err != nil {
+		return err
+	}
 	for i := 0; i < n; i++ {
 		if err := runHistory(c, r.Fork(), i, 22); err != nil {
 			return err
